@@ -27,6 +27,9 @@
 #include <sys/mman.h>
 #include <cpuid.h>
 #include <pthread.h>
+#include <ucontext.h>
+#include <sys/syscall.h>
+#include <asm/prctl.h>
 
 #include "skinny128-cipher.h"
 #include "skinny64-cipher.h"
@@ -445,8 +448,47 @@ static void log_mk(const MantisKey_t *ks)
 
 static __thread sigjmp_buf crash_jmp;
 static __thread volatile int crash_armed;
-static void on_crash(int sig)
+
+/* CPU models (C13): with CPUID faulting switched on (arch_prctl ARCH_SET_CPUID,
+   Linux on Intel), every CPUID instruction of the process traps and is answered
+   here from a table, so the library's REAL probe code runs on any x86 model:
+     leaf 0            eax = maxleaf, "GenuineIntel"
+     leaf 1            edx bit 26 = sse2, ecx bit 27 = osxsave, bit 28 = avx
+     leaf 7 sub-leaf 0 ebx bit 5 = avx2; any other sub-leaf: zeros
+     leaf > maxleaf    the data of the highest basic leaf (Intel): every register = `top`
+     noise = 1         all bits the probes must not look at are SET (else clear) */
+static struct { int on; unsigned maxleaf, sse2, osxsave, avx2, top, noise; } cpum;
+
+static int cpuid_emulate(ucontext_t *uc)
 {
+    greg_t *g = uc->uc_mcontext.gregs;
+    const uint8_t *ip = (const uint8_t *)g[REG_RIP];
+    unsigned leaf, sub, a = 0, b = 0, c = 0, d = 0, fill;
+    if (!cpum.on || ip[0] != 0x0F || ip[1] != 0xA2) return 0;
+    leaf = (unsigned)g[REG_RAX]; sub = (unsigned)g[REG_RCX];
+    fill = cpum.noise ? 0xFFFFFFFFu : 0;
+    if (leaf >= 0x80000000u) {
+        a = (leaf == 0x80000000u) ? 0x80000000u : 0;
+    } else if (leaf == 0) {
+        a = cpum.maxleaf; b = 0x756e6547; d = 0x49656e69; c = 0x6c65746e;
+    } else if (leaf > cpum.maxleaf) {
+        a = b = c = d = cpum.top ? 0xFFFFFFFFu : 0;
+    } else if (leaf == 1) {
+        a = 0x000306A9;
+        d = (fill & ~(1u << 26)) | (cpum.sse2 << 26);
+        c = (fill & ~((1u << 27) | (1u << 28) | (1u << 26))) | (cpum.osxsave << 27) | (cpum.osxsave << 26) | (cpum.avx2 << 28);
+    } else if (leaf == 7) {
+        if (sub == 0) b = (fill & ~(1u << 5)) | (cpum.avx2 << 5);
+    }
+    g[REG_RAX] = a; g[REG_RBX] = b; g[REG_RCX] = c; g[REG_RDX] = d;
+    g[REG_RIP] += 2;
+    return 1;
+}
+
+static void on_crash(int sig, siginfo_t *si, void *ucv)
+{
+    (void)si;
+    if (sig == SIGSEGV && cpuid_emulate((ucontext_t *)ucv)) return;
     if (crash_armed) siglongjmp(crash_jmp, sig);
     _exit(128 + sig);
 }
@@ -1167,6 +1209,42 @@ static void do_env(void)
     jend();
 }
 
+
+/* cpu off | cpu maxleaf= sse2= osxsave= avx2= top= noise= : select the CPU model the
+   process sees from now on (see cpuid_emulate).  ymm = what XGETBV (not trappable,
+   the host's) says about the YMM state; ok = 0: CPUID faulting is not available here */
+static void do_cpu(void)
+{
+    int off = arg("off") != NULL || ntok == 0;
+    long r;
+    jbegin("cpu");
+    if (off) {
+        r = syscall(SYS_arch_prctl, ARCH_SET_CPUID, 1);
+        cpum.on = 0;
+        jint("on", 0); jint("ok", r == 0);
+        jend();
+        return;
+    }
+    cpum.maxleaf = (unsigned)argu("maxleaf", 13); cpum.sse2 = (unsigned)argu("sse2", 1);
+    cpum.osxsave = (unsigned)argu("osxsave", 1); cpum.avx2 = (unsigned)argu("avx2", 0);
+    cpum.top = (unsigned)argu("top", 0); cpum.noise = (unsigned)argu("noise", 0);
+    cpum.on = 1;
+    r = syscall(SYS_arch_prctl, ARCH_SET_CPUID, 0);
+    if (r != 0) cpum.on = 0;
+    {
+        unsigned lo = 0, hi = 0;
+        unsigned a, b, c, d;
+        __asm__ volatile("cpuid" : "=a"(a), "=b"(b), "=c"(c), "=d"(d) : "a"(1), "c"(0));   /* emulated if on */
+        if (r == 0 ? cpum.osxsave : ((c >> 27) & 1))
+            __asm__ volatile("xgetbv" : "=a"(lo), "=d"(hi) : "c"(0));
+        jint("on", 1); jint("ok", r == 0);
+        jint("maxleaf", (long)cpum.maxleaf); jint("sse2", cpum.sse2); jint("osxsave", cpum.osxsave);
+        jint("avx2", cpum.avx2); jint("top", cpum.top); jint("noise", cpum.noise);
+        jint("ymm", (lo & 6) == 6);
+    }
+    jend();
+}
+
 static void do_share(void)
 {
     /* copy the main thread's objects number 7 into a read-only page */
@@ -1190,8 +1268,8 @@ static void install_handlers(void)
     ss.ss_size = 1 << 16; ss.ss_flags = 0;
     sigaltstack(&ss, NULL);
     memset(&sa, 0, sizeof sa);
-    sa.sa_handler = on_crash;
-    sa.sa_flags = SA_ONSTACK | SA_NODEFER;
+    sa.sa_sigaction = on_crash;
+    sa.sa_flags = SA_ONSTACK | SA_NODEFER | SA_SIGINFO;
     sigaction(SIGSEGV, &sa, NULL);
     sigaction(SIGBUS, &sa, NULL);
     sigaction(SIGILL, &sa, NULL);
@@ -1247,6 +1325,7 @@ static int run_lines(char **lines, int from, int to)
         } else if (!strcmp(opname, "env")) do_env();
         else if (!strcmp(opname, "layout")) do_layout();
         else if (!strcmp(opname, "share")) do_share();
+        else if (!strcmp(opname, "cpu")) do_cpu();
         else if (!strcmp(opname, "quiesce")) { jbegin("quiesce"); jint("lv", live_blocks); jend(); }
         else if (!strncmp(opname, "ks_", 3)) do_ks();
         else if (!strncmp(opname, "mk_", 3)) do_mk();
